@@ -387,6 +387,17 @@ fn check_load(m: &Machine, c: &Case, edges: usize) -> Result<u64, (String, Strin
     if k.stacksize() != before.stacksize() || k.programsize() != before.programsize() {
         return f("noset-limits", format!("NOSET program changed the limits from {:?}/{:?} to {:?}/{:?}", before.stacksize(), before.programsize(), k.stacksize(), k.programsize()));
     }
+    // the two limits are independent: an explicit stack size with a NOSET program size, and the other way round
+    let mut k = m.clone();
+    k.load(bytecode(&image, c.follow_stack, 2, 0));
+    if k.stacksize() != STACKSIZES[c.follow_stack as usize] || k.programsize() != before.programsize() {
+        return f("mixed-limits", format!("*STACKSIZE {:?} with *PROGRAMSIZE NOSET on limits {:?}/{:?} gives {:?}/{:?}", STACKSIZES[c.follow_stack as usize], before.stacksize(), before.programsize(), k.stacksize(), k.programsize()));
+    }
+    let mut k = m.clone();
+    k.load(bytecode(&image, 5, pk, n));
+    if k.stacksize() != before.stacksize() || k.programsize() != exp_ps {
+        return f("mixed-limits", format!("*STACKSIZE NOSET with program size {:?} on limits {:?}/{:?} gives {:?}/{:?}", exp_ps, before.stacksize(), before.programsize(), k.stacksize(), k.programsize()));
+    }
     // lock-step with a freshly created machine
     let mut fresh = Machine::new(MachineConfig::default());
     fresh.load(bytecode(&image, c.follow_stack, pk, n));
